@@ -295,6 +295,27 @@ func runDp(c dpCase, r *pb.Rec) error {
 			}
 			r.Class("smallest overshoot returned")
 		}
+		// queries are reads: afterwards the table is what it was (every key an exact total, no key for an
+		// unattainable total), and Best still answers from it
+		for key, sel := range solvers {
+			if _, v, err := checkSelection(sel, c.Items); err != nil || v != key {
+				return fmt.Errorf("%s: after the Best/BestAllowMinOverflow queries key %d holds a selection summing to %d (%v)", where, key, v, err)
+			}
+			if key <= c.Max && !attain[key] {
+				return fmt.Errorf("%s: after the queries the table has a key %d that is not attainable", where, key)
+			}
+		}
+		{
+			want := 0
+			for s := range attain {
+				if s > want {
+					want = s
+				}
+			}
+			if _, got, err := checkSelection(solvers.Best(c.Max), c.Items); err != nil || got != want {
+				return fmt.Errorf("%s: Best(%d) after BestAllowMinOverflow(%d) sums to %d (%v), largest attainable is %d", where, c.Max, c.Max, got, err, want)
+			}
+		}
 		for i := range items {
 			if items[i] != c.Items[i] {
 				return fmt.Errorf("FindDpSolvers modified its input")
@@ -334,6 +355,16 @@ type bigCase struct {
 }
 
 func genBig(t *rapid.T) bigCase {
+	if rapid.IntRange(0, 23).Draw(t, "manyItems") == 0 {
+		// thousands of small items against a small limit: a single call recycles tens of thousands of candidate
+		// selections (internal pools and counters wrap inside one call)
+		n := rapid.SampledFrom([]int{700, 1800, 2600, 4000}).Draw(t, "nMany")
+		its := make([]item, n)
+		for i := range its {
+			its[i] = item{ID: i + 1, W: rapid.IntRange(0, 6).Draw(t, "w"), V: rapid.IntRange(1, 7).Draw(t, "v")}
+		}
+		return bigCase{Items: its, Limit: rapid.SampledFrom([]int{25, 39, 60}).Draw(t, "limitMany"), Overflow: rapid.Bool().Draw(t, "overflow"), Breaker: rapid.SampledFrom([]int{2, 3, 3, 4}).Draw(t, "breaker"), Salt: rapid.IntRange(0, 1000).Draw(t, "salt")}
+	}
 	scale := rapid.SampledFrom([]int{8, 40, 300, 1000}).Draw(t, "scale")
 	n := rapid.IntRange(8, 48).Draw(t, "n")
 	its := make([]item, n)
@@ -350,7 +381,7 @@ func genBig(t *rapid.T) bigCase {
 }
 
 func runBigKnap(c bigCase, r *pb.Rec) error {
-	if len(c.Items) > 64 || c.Limit < 0 || c.Limit > 60000 {
+	if len(c.Items) > 5000 || c.Limit < 0 || c.Limit > 60000 {
 		return nil
 	}
 	for _, it := range c.Items {
@@ -399,7 +430,7 @@ func runBigKnap(c bigCase, r *pb.Rec) error {
 }
 
 func runBigDp(c bigCase, r *pb.Rec) error {
-	if len(c.Items) > 64 || c.Limit < 0 || c.Limit > 60000 {
+	if len(c.Items) > 5000 || c.Limit < 0 || c.Limit > 60000 {
 		return nil
 	}
 	sum := 0
@@ -445,7 +476,10 @@ func runBigDp(c bigCase, r *pb.Rec) error {
 	} else {
 		solvers = algz.FindDpSolvers(c.Limit, items, vf, c.Overflow, breaker(c.Breaker, c.Salt, &replaced))
 	}
-	where := fmt.Sprintf("FindDpSolvers(max %d, %+v, overflow %v, breaker %d)", c.Limit, its, c.Overflow, c.Breaker)
+	where := fmt.Sprintf("FindDpSolvers(max %d, %d items (values = weights+1 of the case), overflow %v, breaker %d)", c.Limit, len(its), c.Overflow, c.Breaker)
+	if len(its) <= 48 {
+		where = fmt.Sprintf("FindDpSolvers(max %d, %+v, overflow %v, breaker %d)", c.Limit, its, c.Overflow, c.Breaker)
+	}
 	for key, sel := range solvers {
 		_, v, err := checkSelection(sel, its)
 		if err != nil {
@@ -497,6 +531,7 @@ func runBigDp(c bigCase, r *pb.Rec) error {
 		r.Class("smallest overshoot returned")
 	}
 	r.ClassIf(attainable >= 256, ">= 256 attainable totals")
+	r.ClassIf(len(c.Items) >= 1800, ">= 1800 items in one call")
 	r.ClassIf(replaced, "tie-breaker replaced")
 	r.NonTrivialIf(attainable >= 32)
 	return nil
@@ -696,8 +731,8 @@ func genBigGraph(t *rapid.T) bigGraphCase {
 	c := bigGraphCase{N: rapid.OneOf(rapid.IntRange(11, 64), rapid.SampledFrom([]int{31, 32, 33, 34, 63, 64})).Draw(t, "n"), Seed: rapid.Uint64().Draw(t, "seed"),
 		Density: rapid.SampledFrom([]int{0, 20, 60, 120, 200}).Draw(t, "density"),
 		Planted: rapid.SliceOfN(rapid.OneOf(rapid.IntRange(2, 6), rapid.IntRange(2, 12)), 0, 5).Draw(t, "planted"), Mix: rapid.IntRange(0, 4).Draw(t, "mix")}
-	if rapid.IntRange(0, 9).Draw(t, "bigClique") == 0 && c.Density <= 60 {
-		c.Planted = append(c.Planted, rapid.SampledFrom([]int{16, 17, 18}).Draw(t, "bigSize"))
+	if rapid.IntRange(0, 39).Draw(t, "bigClique") == 0 && c.Density <= 60 {
+		c.Planted = append(c.Planted, rapid.SampledFrom([]int{16, 17}).Draw(t, "bigSize"))
 	}
 	return c
 }
@@ -870,7 +905,7 @@ func init() {
 	pb.Register("knapsack_large", pb.Options{Base: 600, Required: []string{"limit >= 256", "selection of >= 16 items", "tie-breaker replaced"},
 		Rule: "8..48 items, weights 0..1000 and values 1..65536 at four scales with boundary values (255/256/257, 65535/65536), limits up to the total weight and at 255/256/1023/1024/4095/4096; oracle: independent table DP for the optimum value plus the validity predicate (input items, each id once, weight within the limit, value = optimum); non-trivial = at least 4 items selected"},
 		genBig, runBigKnap)
-	pb.Register("dp_solvers_large", pb.Options{Base: 400, Required: []string{">= 256 attainable totals", "smallest overshoot returned"},
+	pb.Register("dp_solvers_large", pb.Options{Base: 400, Required: []string{">= 256 attainable totals", "smallest overshoot returned", ">= 1800 items in one call"},
 		Rule: "the same generator read as FindDpSolvers instances (value of an item = its weight + 1, max = limit): oracle: independent subset-sum reachability table (every key sums exactly with distinct ids, every attainable total <= max is a key, no key above max unless overflow is allowed, the smallest overshoot present, Best, BestAllowMinOverflow); non-trivial = at least 32 attainable totals"},
 		genBig, runBigDp)
 	pb.Register("maximal_cliques_large", pb.Options{Base: 400, Required: []string{"more than 32 vertices", "a maximal clique of >= 17 vertices", ">= 200 maximal cliques"},
